@@ -311,14 +311,12 @@ class Hedger(Module):
             # If all features are state-independent, compute the output at all
             # time steps at once, which would be faster.
             input = inputs.get(None)  # (N, T, F)
-            output = self(input)  # (N, T, H)
-            # This maintains consistency with the previous implementations.
-            # In previous implementation for loop is computed for 0...T-2 and
-            # the last time step is not included.
-            # Built out of place: overwriting the model's output would break the
-            # backward pass of models whose last operation saves its output
-            # (e.g. ReLU, Tanh, Sigmoid).
-            output = torch.cat((output[..., :-1, :], output[..., [-2], :]), dim=-2)
+            # As in the loop above, the model is evaluated for the steps 0...T-2 only:
+            # the position at maturity repeats the last one. (Evaluating the model at
+            # maturity and discarding the result poisons the backward pass with
+            # 0 * inf = nan for models that are singular there, e.g. BlackScholes.)
+            output = self(input[..., :-1, :])  # (N, T-1, H)
+            output = torch.cat((output, output[..., [-1], :]), dim=-2)  # (N, T, H)
 
         output = output.transpose(-1, -2)  # (N, H, T)
 
